@@ -44,8 +44,8 @@ Proof. vm_compute. repeat split; reflexivity. Qed.
     four octets followed by 35 octets 0xFF: steps, and the bound
     [K * (8 * octets + 1)] *)
 Example ex_ty_measured :
-  snd (uper_decode_cost false 12 ex_env ex_ty ex_data) = 71%N /\
-  (71 <=? K ex_env 12 ex_ty * (8 * 17 + 1))%N = true /\
+  snd (uper_decode_cost false 12 ex_env ex_ty ex_data) = 72%N /\
+  (72 <=? K ex_env 12 ex_ty * (8 * 17 + 1))%N = true /\
   uper_decode_cost false 12 ex_env ex_ty (firstn 9 ex_data) = (Err EOutOfData, 51%N) /\
   (51 <=? K ex_env 12 ex_ty * (8 * 9 + 1))%N = true /\
   uper_decode_cost false 12 ex_env ex_ty (firstn 4 ex_data ++ repeat 255 35)%list = (Err EDecode, 33%N) /\
